@@ -38,6 +38,12 @@ CHECKS = {
         "text": "Index level: 11 field families (every shipped stored/sortable type, the _stored_ override, all column types) x all 16 presence patterns over 4 documents x all 8 segment compositions x {plain, optimize, merge, delete+optimize} x {RAM, mmap, no mmap} x {compound, loose} incl. copy_to_ram; column level: 35 column configurations x 3 back-ends, every assignment to <=3-4 rows, 255/256/257 rows x sparse patterns, RefBytes around 65536 distinct values, VarBytes offsets/retyping through forced small cutoffs and 32K/64K/70KB values. Every stored value, column value, default and Hit fallback must equal the model.",
         "note": "Trusted: the Python list/dict model; documents identified by an indexed unique key. Offsets above 2^31 are out of bound.",
     },
+    "C09": {
+        "engine": "E1", "level": "exploration",
+        "technique": "bounded-exhaustive enumeration of postings x weighting models x boosts x layouts (leaf law against documented formulas over re-derived statistics) and of query trees x alignments x access paths (composition law against leaf scores measured on the same searcher)",
+        "text": "Leaf law: every posting of U(5) under all 16 segment compositions (+optimised, file storage, loose files), 13 weighting configurations, field/document/query boosts: Term score equals the documented formula on float32 weight, byte-approximated length and statistics re-derived from the corpus. Composition law: every tree of the families leaf/two/three (ArrayUnionMatcher)/boosted/zero/const/opaque/nested/multiterm over all posting alignments of U(4)-U(5) with deletions: score equals the documented composition of leaf scores through search, terms=True, limited search, matcher stepping, filter/mask/collapse/groupedby and (no deletions) every layout.",
+        "note": "Trusted: formulas written from the documentation (BM25F, idf, TF_IDF, Frequency); PL2/DFree only as the shipped functions applied to model-derived arguments; tolerance 1e-9 (1e-6 for float32).",
+    },
     "C10": {
         "engine": "E1", "level": "exploration",
         "technique": "bounded-exhaustive enumeration of token streams x posting formats x block sizes x compression x inlining x codecs x write paths on the real code, against a plain-Python token model",
@@ -79,6 +85,12 @@ CHECKS = {
         "technique": "bounded-exhaustive enumeration of texts (all concatenations of <=3-4 chunks from a 13-chunk alphabet) x 64 analyzer/field configurations on the real code, checked by relations between whoosh's own index-time, query-time, phrase, offset and highlighting paths",
         "text": "Every text of <=3 (thorough 4) chunks over an alphabet of letters, case, stop word, accented/multi-char-lowercase characters, alphanumerics, hyphen/apostrophe/URL forms, whitespace, punctuation and a 70-character word, for every shipped analyzer and filter chain on TEXT/KEYWORD/ID/NGRAM/NGRAMWORDS fields: the document is found by each index-time token, by the conjunction of its query-time tokens and by the parser's reading of the text, by every phrase of consecutive tokens; positions are non-decreasing, offsets are in range and re-analyse to the token; highlights stripped of markup are substrings and marked spans are matched terms for every fragmenter x formatter.",
         "note": "Trusted: only relations between whoosh's own paths plus Python string slicing (no second tokenizer). Single-segment RAM index per shard.",
+    },
+    "C18": {
+        "engine": "E3", "level": "model_checking",
+        "technique": "bounded-exhaustive enumeration of operation lists x storage x packing x writer front-end against a reference dump (sequential product), plus stateless schedule exploration of AsyncWriter/BufferedWriter threads under a cooperative scheduler with line-level points inside the front-ends",
+        "text": "Part A: every operation list of length <=2 (thorough 3) over {add, update, delete} x 2 keys x 2 texts through {RAM, file mmap, file no-mmap, copy_to_ram} x {compound, loose} x {plain, BufferedWriter limit 1-3, AsyncWriter, SerialMpWriter, MpWriter with real processes (procs 2; procs 3 multisegment)} must give the reference canonical dump. Part B: an AsyncWriter racing a plain writer that holds the lock (commit/cancel, with a delete), and a BufferedWriter shared by two adder threads, an observer (searcher() must show exactly the documents whose add had returned / started) and its flush timer: every schedule with <=1 (thorough 2) preemptions; afterwards close() must leave exactly all documents on disk.",
+        "note": "Trusted: reference = plain writer on RAM with one transaction per operation; scheduler owns storage/lock/sleep and (inside BufferedWriter methods) line-level nondeterminism. Real MpWriter process timing is not controlled, only its outcome is compared.",
     },
     "C19": {
         "engine": "E1", "level": "exploration",
